@@ -350,7 +350,7 @@ def main():
             continue
         for t in hist.TARGETS:
             cov["traces_validated_against_impl"] += 1
-            if res[t]["module"] != base[t]["module"] or res[t]["objects"] != base[t]["objects"]:
+            if res[t]["module"] != base[t]["module"] or res[t]["objects"] != base[t]["objects"] or res[t].get("module_with_flags") != base[t].get("module_with_flags"):
                 cause = "hash-seed" if not r["history"] else ("history" if r["seed"] == 0 else "history+hash-seed")
                 k = f"{PID}:stability:{t}:{cause}"
                 if k not in seen:
